@@ -108,6 +108,14 @@ theorem extend_reserve_eq (a b : RawView) : Gen.ListGuards.extend_reserve a b = 
 theorem extend_len_add_eq (a b : RawView) : Gen.ListGuards.extend_len_add a b = b.len := by
   unfold Gen.ListGuards.extend_len_add; omega
 
+theorem extend_clone_count_eq (a b : RawList) : Gen.ListGuards.extend_clone_count a.view b.view = b.len := by
+  unfold Gen.ListGuards.extend_clone_count RawList.view; first | rfl | omega
+theorem drop_amount_eq (l : RawList) :
+    (if Gen.ListGuards.drop_runs_element_drops then Gen.ListGuards.drop_count l.view else 0) = l.len := by
+  have : Gen.ListGuards.drop_runs_element_drops = true := by decide
+  rw [this]
+  unfold Gen.ListGuards.drop_count RawList.view; first | rfl | (simp only [if_true]; omega)
+
 def IsPow2 (n : Nat) : Prop := ∃ k, n = 2 ^ k
 
 /-- the representation invariant of one `RawList` with element size `sz` -/
